@@ -30,7 +30,7 @@ Proof.
   intros I W H. destruct (is_create_group c) eqn:E.
   - destruct c; try discriminate. cbn in H, W.
     apply create_shard_group_cases in H. destruct H as [->|[r [C Hcov]]]; auto.
-    eapply Created_Inv; eauto. unfold c06_max_nano_time in *. lia.
+    eapply Created_Inv; eauto; unfold min_unix_nano, c06_max_nano_time in *; lia.
   - eapply Shrink_Inv; eauto. eapply exec_Shrink; eauto.
 Qed.
 
@@ -237,7 +237,7 @@ Proof.
     apply create_shard_group_cases in E. destruct E as [->|[r [C Hcov]]].
     + apply StepFacts_same. intros id; discriminate.
     + pose proof (Created_perm _ _ _ _ C) as P.
-      assert (I' : Inv d') by (eapply Created_Inv; eauto; unfold c06_max_nano_time in *; lia).
+      assert (I' : Inv d') by (eapply Created_Inv; eauto; unfold min_unix_nano, c06_max_nano_time in *; lia).
       destruct (new_group_sids_fresh d r t Hcov) as (_ & Sf).
       constructor; try congruence.
       * rewrite (cr_maxn _ _ _ _ C), (cr_maxg _ _ _ _ C), (cr_maxs _ _ _ _ C). lia.
@@ -525,7 +525,7 @@ Proof.
   intros R Ht r1 E. pose proof (reachable_Inv _ _ R) as I. unfold r1, apply in *. cbn [exec] in *.
   destruct (create_shard_group d dbn pol t) as [d1|e] eqn:E1; cbn [fst snd] in *;
     [|subst e; exfalso; apply (exec_err_not_none auto ex d (CCreateShardGroup dbn pol t)); exact E1].
-  assert (C : Covered d1 dbn pol t) by (eapply create_shard_group_Covered; eauto; lia).
+  assert (C : Covered d1 dbn pol t) by (eapply create_shard_group_Covered; eauto; unfold min_unix_nano; lia).
   assert (C' : Covered (stamp d1 idx term) dbn pol t) by exact C.
   rewrite (Covered_noop _ _ _ _ C'). reflexivity.
 Qed.
